@@ -191,6 +191,22 @@ R.contract(
     replayable=False,
 )
 
+# ------------------------------------------------------------------------------------------------- prepare_body: the generated document is sent as {"query": document}
+R.opaque_classes["GqlSchemaRef"] = GQ + "GraphQLSchema"
+R.opaque_super["GqlSchemaRef"] = ("GraphQLSchema", GQ + "GraphQLSchema", "BaseSchema")
+R.contract(
+    "schemathesis.transport.prepare:prepare_body",
+    prop="C20",
+    args={"case": Obj("spec:GqlCase", body=OneOf(Str, Global("schemathesis.core:NOT_SET")), operation=Obj("spec:GqlOp", schema=OneOf(Opq("GqlSchemaRef"), Opq("OtherSchema"))))},
+    ensures={
+        "graphql_document_is_sent_as_the_query_member": "implies(is_gql(case) and is_str_(case.body), result == {'query': case.body})",
+        "absent_body_stays_absent": "implies(not is_str_(case.body), result is case.body)",
+        "other_specifications_untouched": "implies(not is_gql(case), (result == case.body) if is_str_(case.body) else (result is case.body))",
+    },
+)
+R.spec_funcs["is_gql"] = lambda it, case: getattr(case.fields["operation"].fields["schema"], "sort", None) == "GqlSchemaRef"
+R.spec_funcs["is_str_"] = lambda it, v: isinstance(v, str) or type(v).__name__ == "SStr"
+
 LEVEL_TEXT = ("Deductive pipeline-term obligations on the real graphql_cases and get_extra_scalar_strategies (what the generator is asked for, value sets of the built-in scalars); "
               "validity of the generated document is the library's (E7). Level other.")
 LEVEL_NOTE = "Trusted: hypothesis-graphql, graphql-core (E7), Hypothesis constructors (E2), pyvc semantics (E9)."
